@@ -188,6 +188,23 @@ Inductive pres := POk (p : pref) | PErr | PUnjudged.
 
 Definition count (c : N) (s : str) : nat := length (filter (fun d => d =? c) s).
 
+(* a '%' that is not followed by two hex digits: url.unescape fails (invalid URL escape) *)
+Fixpoint bad_pct (s : str) : bool :=
+  match s with
+  | [] => false
+  | c :: r =>
+    if c =? c_pct then
+      match r with
+      | h1 :: h2 :: r' =>
+        match hexval h1, hexval h2 with
+        | Some _, Some _ => bad_pct r'
+        | _, _ => true
+        end
+      | _ => true
+      end
+    else bad_pct r
+  end.
+
 (* after the scheme: query, authority, path *)
 Definition parse_rest (sch : option str) (rest0 : str) : pres :=
   let '(rest, q) := cut c_qm rest0 in
@@ -201,10 +218,12 @@ Definition parse_rest (sch : option str) (rest0 : str) : pres :=
       let auth_path := skipn 2 rest in
       let '(auth, p) := cut c_sl auth_path in
       let path := match p with Some p' => c_sl :: p' | None => [] end in
-      if host_ok auth && forallb path_char path && forallb query_char (match q with Some x => x | None => [] end)
+      if host_ok auth && bad_pct path then PErr
+      else if host_ok auth && forallb path_char path && forallb query_char (match q with Some x => x | None => [] end)
       then POk (mkP sch (Some auth) path q) else PUnjudged
     else
-      if forallb path_char rest && forallb query_char (match q with Some x => x | None => [] end)
+      if bad_pct rest then PErr
+      else if forallb path_char rest && forallb query_char (match q with Some x => x | None => [] end)
       then POk (mkP sch None rest q) else PUnjudged
   end.
 
